@@ -459,6 +459,62 @@ func checkC13(c *hx.Checker) {
 			return hx.OK("introspection")
 		})
 	}
+	// dimension denotations (DATA_BATCH, DATA_CHANNEL, ...) are labels: a fixed dimension that carries one stays fixed, a
+	// symbolic / unspecified one stays free, on every axis
+	for _, den := range []string{"DATA_BATCH", "DATA_CHANNEL", "DATA_TIME", "DATA_FEATURE", "FILTER_IN_CHANNEL", "batch", "N"} {
+		for axis := 0; axis < 2; axis++ {
+			for _, kind := range []string{"fixed", "symbolic", "unspecified"} {
+				den, axis, kind := den, axis, kind
+				dims := []hx.DimSpec{{Fixed: 2}, {Fixed: 3}}
+				switch kind {
+				case "symbolic":
+					dims[axis] = hx.DimSpec{Param: "N"}
+				case "unspecified":
+					dims[axis] = hx.DimSpec{}
+				}
+				dims[axis].Denotation = den
+				g := &onnx.GraphProto{Name: "g"}
+				g.Input = append(g.Input, hx.ValueInfo("x", ref.F32, dims))
+				g.Node = append(g.Node, hx.Node("Relu", []string{"x"}, []string{"y_x"}, nil))
+				g.Output = append(g.Output, hx.ValueInfoNoShape("y_x"))
+				mb := hx.Marshal(hx.Model(g, 13))
+				for _, ext := range []int{1, 2, 3, 4} {
+					shape := []int{2, 3}
+					shape[axis] = ext
+					x := ref.Distinct(ref.F32, shape)
+					ok := kind != "fixed" || ext == []int{2, 3}[axis]
+					var mcase *modelCase
+					if ok {
+						e, _ := ref.Unary("Relu", x)
+						mcase = newModelCase(mb, map[string]*ref.T{"x": x}, "outputs", map[string]*ref.T{"y_x": e}, hx.Num, "")
+					} else {
+						mcase = newModelCase(mb, map[string]*ref.T{"x": x}, "error", nil, hx.Num, "")
+					}
+					c.Case(hx.CaseInfo{ID: fmt.Sprintf("denotation/%s/axis=%d/%s/extent=%d", den, axis, kind, ext), Tags: []string{"denotation"}, NonTrivial: true}, func() *hx.Violation { return mcase.run() })
+				}
+				c.Case(hx.CaseInfo{ID: fmt.Sprintf("denotation/%s/axis=%d/%s/introspection", den, axis, kind), Tags: []string{"denotation", "introspection"}, NonTrivial: true}, func() *hx.Violation {
+					mk := func(k, d string) *hx.Violation {
+						return &hx.Violation{Kind: k, Detail: d, Replay: map[string]any{"replay_kind": "introspection-denotation", "denotation": den, "axis": axis, "kind": kind}}
+					}
+					m, err := gonnx.NewModelFromBytes(mb)
+					if err != nil {
+						return mk("refused", err.Error())
+					}
+					sh := m.InputShapes()["x"]
+					if len(sh) != 2 {
+						return mk("wrong-introspection", fmt.Sprintf("InputShapes[x] = %+v", sh))
+					}
+					for i := range sh {
+						wantDyn := i == axis && kind != "fixed"
+						if sh[i].IsDynamic != wantDyn || (!wantDyn && sh[i].Size != int64([]int{2, 3}[i])) {
+							return mk("wrong-introspection", fmt.Sprintf("InputShapes[x] = %+v for a %s dimension denoted %q on axis %d of (2,3)", sh, kind, den, axis))
+						}
+					}
+					return hx.OK("introspection")
+				})
+			}
+		}
+	}
 	// a nil input map is an empty input set: accepted when nothing is required, refused otherwise - never a panic
 	for name, spec := range map[string]struct {
 		model []byte
